@@ -28,6 +28,8 @@ KIND = {
     6: "no Start of a concurrent burst on a startable plan succeeded",
     7: "executions differ from the number of successful Starts",
     8: "a failed Start returned something that is not an error",
+    9: "Wait blocked until its deadline on a plan that is not executing (never started, finished, or unknown id): "
+       "a rejected Start / finished run left a waiter behind - the rejection was not without side effects",
 }
 # which DESIGN section-7 defect a monitor kind points at (only used to word the report)
 DEFECT = {1: "A1/A2 (panic)", 2: "A1", 3: "A1", 5: "A2", 7: "A1"}
@@ -117,9 +119,23 @@ def run(ctx):
     for kind in sorted(viol):
         for c, r in viol[kind]:
             groups.setdefault((kind, panic_signature(c) if kind == 1 else ""), []).append((c, r))
+    timing_flaky = []
     for (kind, sig) in sorted(groups):
         lst = sorted(groups[(kind, sig)], key=lambda x: case_size(x[0]))
         c, r = lst[0]
+        if kind == 9:
+            # the only deadline-based clause: confirm in fresh children before reporting. Sequential histories
+            # first (they repeat exactly; in a burst the Wait must happen to arrive after a rejected Start).
+            confirmed = None
+            for cand, rr in sorted(lst, key=lambda x: (x[0]["kind"] == "burst", case_size(x[0])))[:4]:
+                again = rerun(ctx, cand)
+                if sum(1 for x in again if x and x[0] == 1) >= 2:
+                    confirmed = (cand, rr)
+                    break
+                timing_flaky.append((cand["id"], rr, again))
+            if confirmed is None:
+                continue
+            c, r = confirmed
         ctx.violation(dict(
             kind="c12-monitor-false", monitor_kind=kind, what=KIND.get(kind, "?") + ((": " + sig) if sig else ""),
             points_at=DEFECT.get(kind, "new"),
@@ -177,7 +193,7 @@ def run(ctx):
         traces_validated_against_impl=len(hist),
         histories=len(hist), bursts=len(bursts), child_processes=len(cases),
         abnormal_children=fw.histogram(c["dist"].get("abnormal") or "none" for c in cases),
-        flaky_on_rerun=flaky,
+        flaky_on_rerun=flaky + timing_flaky,
         distribution=dict(
             ops=merge("ops"), op_idkind=merge("op_idkind"),
             op_idkind_result=dict(sorted(res_hist.items(), key=lambda kv: -kv[1])[:60]),
@@ -195,6 +211,7 @@ def run(ctx):
         "executions of a plan = max plugin call count per action of an all-ok plan with retries 0 and no bypass/continuous checks, counted by plan nonce",
         "the model's clock is the caller's: images are crafted >= 2 min away from the maxSubmit boundary, real sleeps overshoot it by 400 ms; the exact boundary is proved in the model only",
         "store writes of the engine succeed (a failed write is log.Fatal in sm.Start/End: outside C12's quantifier, which ranges over call orders and ids)",
+        "a Wait on a plan the caller did not start (or saw finish) gets a 3 s deadline and counts as blocked when it expires (monitor clause 9, confirmed by 3 re-runs before it is reported)",
         "vault.Delete is used on plans that are not executing only; Status is used with a positive interval only (interval <= 0 panics in time.NewTicker; DESIGN section 11)",
         "Not covered: recovery-started executions (C11), the cosmosdb vault, interleavings inside store.Read/validateStartState, cancellation of a context that is already dead when the call is made",
     ])
